@@ -163,6 +163,16 @@ def run(ctx, ck):
         forms[tagged] = norm(arg) if arg is not None else '?'
         if tagged:
             ok = norm(arg) in ('self.geo.by_tag.get(geo_tag).pulses[pulse].idx', 'self.geo.by_tag[geo_tag].pulses[pulse].idx')
+            if not ok:
+                # <object>.pulses[pulse].idx with the object looked up through by_tag[geo_tag]
+                a_ = c.args[1]
+                if isinstance(a_, ast.Attribute) and a_.attr == 'idx' and isinstance(a_.value, ast.Subscript) \
+                   and norm(a_.value.slice) == 'pulse' and isinstance(a_.value.value, ast.Attribute) \
+                   and a_.value.value.attr == 'pulses':
+                    r_ = fl.roots(a_.value.value.value, fl.node_id_of(c))
+                    ok = ('param', 'geo_tag') in r_ and any(
+                        (x[0] == 'attr' and x[1].endswith('by_tag')) or
+                        (x[0] == 'call' and 'by_tag' in x[1]) for x in r_)
         else:
             ok = norm(arg) == 'pulse'
         ck.ob('R-KIND.registered-index', '%s|%s' % (f.qual, 'tagged' if tagged else 'absolute'), ok, f.loc(c),
